@@ -68,6 +68,13 @@ Definition ctx_err (T : table) : err := mk_err [] true (t_ctx T).               
    *JSONRPCError: no identity survives, the text does. *)
 Definition wire_err (e : err) : err := mk_err [] false (e_msg e).
 
+(* da/jsonrpc/server.go serverInternalAPI.{Get, GetIDs, Submit, SubmitWithOptions} (lines 34-72): each handler
+   is `return s.daImpl.X(...)` — the backing DA's answer, the error included, is handed to go-jsonrpc as it
+   is: whatever its length, and wherever in it a sentinel's text stands.  [wire_err (server_err e)] is what
+   leaves the server for a backend error [e]; the harness compares the TEXT the client side hands to the
+   node's helper with [e_msg] of the model's answer for every generated length (Check.ProxyCheck codes 7, 8). *)
+Definition server_err (e : err) : err := e.
+
 (* a request that fails in transport because the caller's context is cancelled: the client library's
    error text ends in context.Canceled's text *)
 Definition transport_cancel_err (T : table) : err := mk_err [] false (t_ctx T).
@@ -127,7 +134,7 @@ Fixpoint filter_loop (max cur : N) (l : list N) : list N * bool :=
   end.
 
 Definition wire_sresult (r : sresult) : sresult :=
-  match r with SRes ids h => SRes ids h | SFail e => SFail (wire_err e) end.
+  match r with SRes ids h => SRes ids h | SFail e => SFail (wire_err (server_err e)) end.
 Definition client_sresult (T : table) (r : sresult) : sresult :=
   match r with SRes ids h => SRes ids h | SFail w => SFail (client_submit_err T w) end.
 
@@ -149,6 +156,23 @@ Definition proxied_submit (T : table) (max : N) (b : backend) (cancelled : bool)
        | taken => let q := rpc_submit T b cancelled taken in
                   (submit_helper n (client_sresult T (fst q)), snd q)
        end.
+
+(* ---- the answer the node's helper is handed (before it is classified) ------------------------------------
+   [direct_answer]: by the DA itself; [proxied_answer]: by client.go SubmitWithOptions (same branches as
+   [proxied_submit], see Proofs.ProxyProofs.proxied_submit_answer).  [answer_text]: err.Error() of it. *)
+Definition direct_answer (T : table) (b : backend) (cancelled : bool) (sizes : list N) : sresult :=
+  honour_s T cancelled b sizes.
+
+Definition proxied_answer (T : table) (max : N) (b : backend) (cancelled : bool) (sizes : list N) : sresult :=
+  let p := filter_loop max 0 sizes in
+  if snd p then SFail (sent_err T STooBig)
+  else match fst p with
+       | [] => match sizes with [] => SRes [] 0 | _ => SFail (sent_err T STooBig) end
+       | taken => client_sresult T (fst (rpc_submit T b cancelled taken))
+       end.
+
+Definition answer_text (r : sresult) : option string :=
+  match r with SFail e => Some (e_msg e) | SRes _ _ => None end.
 
 (* core/da/dummy.go SubmitWithOptions lines 182-215 (DummyDA with limit L, height 0 -> ids at height 1) *)
 Fixpoint dummy_loop (L cur : N) (l : list N) : option (list N) :=
@@ -216,7 +240,7 @@ Definition direct_retrieve (T : table) (g : gresult) (get : getfn) (cancelled : 
   retrieve_helper T (honour_g T cancelled g) (honour_b T cancelled get).
 
 (* server + wire *)
-Definition wire_gresult (g : gresult) : gresult := match g with GErr e => GErr (wire_err e) | _ => g end.
+Definition wire_gresult (g : gresult) : gresult := match g with GErr e => GErr (wire_err (server_err e)) | _ => g end.
 Definition rpc_getids (T : table) (cancelled : bool) (g : gresult) : gresult :=
   if cancelled then GErr (transport_cancel_err T) else wire_gresult g.
 
@@ -231,17 +255,39 @@ Definition client_getids (T : table) (g : gresult) : gresult :=
   | GRes ids ts => GRes ids ts
   end.
 
+(* client.go Get line 50: fmt.Errorf("failed to get blobs: %w", err) *)
+Definition get_wrap : string := "failed to get blobs: ".
+
 (* client.go Get (lines 41-55) around the round trip *)
 Definition client_get (T : table) (cancelled : bool) (get : getfn) : getfn :=
   fun ids => match (if cancelled then BErr (transport_cancel_err T) else
-                      match get ids with BOk b => BOk b | BErr e => BErr (wire_err e) end) with
+                      match get ids with BOk b => BOk b | BErr e => BErr (wire_err (server_err e)) end) with
              | BOk b => BOk b
              | BErr w => if contains (e_msg w) (t_ctx T) then BErr (ctx_err T)
-                         else BErr (mk_err (e_is w) (e_ctx w) ("failed to get blobs: " ++ e_msg w))
+                         else BErr (mk_err (e_is w) (e_ctx w) (get_wrap ++ e_msg w))
              end.
 
 Definition proxied_retrieve (T : table) (g : gresult) (get : getfn) (cancelled : bool) : robs :=
   retrieve_helper T (client_getids T (rpc_getids T cancelled g)) (client_get T cancelled get).
+
+(* ---- the error text the retrieve helper is handed: by GetIDs, else by the first Get that fails ------------- *)
+Fixpoint first_get_err (get : getfn) (bs : list (list N)) : option string :=
+  match bs with
+  | [] => None
+  | b :: r => match get b with BErr e => Some (e_msg e) | BOk _ => first_get_err get r end
+  end.
+
+Definition retrieve_text (g : gresult) (get : getfn) : option string :=
+  match g with
+  | GErr e => Some (e_msg e)
+  | GNil | GRes [] _ => None
+  | GRes ids _ => first_get_err get (chunks 100 ids)
+  end.
+
+Definition direct_retrieve_text (T : table) (g : gresult) (get : getfn) (cancelled : bool) : option string :=
+  retrieve_text (honour_g T cancelled g) (honour_b T cancelled get).
+Definition proxied_retrieve_text (T : table) (g : gresult) (get : getfn) (cancelled : bool) : option string :=
+  retrieve_text (client_getids T (rpc_getids T cancelled g)) (client_get T cancelled get).
 
 (* ---- the property's domain of errors ---------------------------------------------------------------------
    An error is in the domain when its text mentions exactly the sentinels it wraps (for the five the submit
